@@ -7,6 +7,7 @@ From Coq Require Import ZArith List Bool Lia Sorting.Permutation.
 From Coq Require Import ZifyBool.
 From Geo Require Import Base.GoPrim Gen.CellIDCov Model.Coverer.
 From Geo Require Import Proofs.C05_CellFacts Proofs.C05_CellUnion Proofs.C05_Heap.
+From Geo Require Import Gen.CellID.  (* s2_CellID_Next *)
 Import ListNotations.
 Local Open Scope Z_scope.
 
